@@ -24,6 +24,11 @@ N6  nested conjunction       `if a: if b: X` (no else on either, nothing else in
                              merged or split to the form the catalogued function has.
 N7  early continue           in a loop body `if t: continue` followed by R (to the end of the body) is `if not t: R`;
                              aligned with the catalogued function.
+N9  lock statement form      `L.acquire(); try: B finally: L.release()` (no handlers) is `with L: B` for locks and
+                             conditions; aligned with the form the catalogued function uses for that lock.
+N10 trivial delegation       (package level) a method whose whole body is `return self.<impl>(<its own parameters, in
+                             order>)` where <impl> is a method of the same class with the same signature, referenced
+                             nowhere else in the package and unknown to the catalogue, is replaced by <impl>'s body.
 N8  dead bookkeeping         (package level) an assignment to an attribute of self / an entry of self.__dict__ whose
                              name occurs nowhere else in the package, with an effect-free right-hand side, is dropped:
                              nothing can observe it.
@@ -224,9 +229,70 @@ def attr_names(tree):
         set(n.slice.value for n in ast.walk(tree) if isinstance(n, ast.Subscript) and isinstance(n.slice, ast.Constant) and isinstance(n.slice.value, str))
 
 
+def _acquire_pair(v, i):
+    """(lock text) when v[i] is `L.acquire()` and v[i+1] is `try: ... finally: L.release()` without handlers."""
+    if i + 1 >= len(v):
+        return None
+    s0, t = v[i], v[i + 1]
+    if not (isinstance(s0, ast.Expr) and isinstance(s0.value, ast.Call) and isinstance(s0.value.func, ast.Attribute) and s0.value.func.attr == "acquire"
+            and not s0.value.args and not s0.value.keywords):
+        return None
+    L = _u(s0.value.func.value)
+    if (isinstance(t, ast.Try) and not t.handlers and not t.orelse and len(t.finalbody) == 1 and isinstance(t.finalbody[0], ast.Expr)
+            and _u(t.finalbody[0].value) == "%s.release()" % L):
+        return L
+    return None
+
+
+def lock_forms(fn):
+    out = []
+    for owner, field, v in _all_blocks(fn):
+        for i, st in enumerate(v):
+            if isinstance(st, ast.With) and len(st.items) == 1 and st.items[0].optional_vars is None:
+                out.append([_u(st.items[0].context_expr), "with"])
+            L = _acquire_pair(v, i)
+            if L is not None:
+                out.append([L, "acquire"])
+    return out
+
+
+def n9_align_lock_forms(fn, ent):
+    ref = {}
+    for L, form in ent.get("locks", ()):
+        ref[L] = form if ref.get(L, form) == form else "mixed"
+    if not ref:
+        return 0
+    n = 0
+    changed = True
+    while changed:
+        changed = False
+        for owner, field, v in list(_all_blocks(fn)):
+            for i, st in enumerate(v):
+                if isinstance(st, ast.With) and len(st.items) == 1 and st.items[0].optional_vars is None and ref.get(_u(st.items[0].context_expr)) == "acquire":
+                    import copy
+                    L = st.items[0].context_expr
+                    acq = ast.copy_location(ast.Expr(value=ast.Call(func=ast.Attribute(value=copy.deepcopy(L), attr="acquire", ctx=ast.Load()), args=[], keywords=[])), st)
+                    rel = ast.copy_location(ast.Expr(value=ast.Call(func=ast.Attribute(value=copy.deepcopy(L), attr="release", ctx=ast.Load()), args=[], keywords=[])), st)
+                    tr = ast.copy_location(ast.Try(body=st.body, handlers=[], orelse=[], finalbody=[rel]), st)
+                    v[i:i + 1] = [acq, tr]
+                    n += 1
+                    changed = True
+                    break
+                L = _acquire_pair(v, i)
+                if L is not None and ref.get(L) == "with":
+                    w = ast.copy_location(ast.With(items=[ast.withitem(context_expr=st.value.func.value, optional_vars=None)], body=v[i + 1].body), st)
+                    v[i:i + 2] = [w]
+                    n += 1
+                    changed = True
+                    break
+            if changed:
+                break
+    return n
+
+
 def entry_for(fn):
     return {"cmp": compares_of(fn), "logs": log_texts(fn), "ifs": if_shapes(fn), "aug": aug_forms(fn), "tests": if_tests(fn),
-            "nested": nested_pairs(fn), "conts": continue_tests(fn)}
+            "nested": nested_pairs(fn), "conts": continue_tests(fn), "locks": lock_forms(fn)}
 
 
 def n5_align_augassign(fn, ent):
@@ -339,6 +405,94 @@ def _dead_store_name(st):
             return False
         return all(pure(c) for c in ast.iter_child_nodes(e) if isinstance(c, ast.expr))
     return name if pure(st.value) else None
+
+
+def _sig(fn):
+    a = fn.args
+    return ([x.arg for x in a.posonlyargs], [x.arg for x in a.args], a.vararg.arg if a.vararg else None, [x.arg for x in a.kwonlyargs],
+            a.kwarg.arg if a.kwarg else None, [ast.dump(d) for d in a.defaults], [ast.dump(d) if d is not None else None for d in a.kw_defaults])
+
+
+def _is_docstring(st):
+    return isinstance(st, ast.Expr) and isinstance(st.value, ast.Constant) and isinstance(st.value.value, str)
+
+
+def _delegation(w, methods):
+    """the FunctionDef that method ``w`` delegates its whole body to (`return self.<impl>(<own parameters>)`), or None."""
+    body = [st for st in w.body if not _is_docstring(st)]
+    if len(body) != 1 or not isinstance(body[0], ast.Return) or not isinstance(body[0].value, ast.Call):
+        return None
+    c = body[0].value
+    if not (isinstance(c.func, ast.Attribute) and isinstance(c.func.value, ast.Name) and w.args.args and c.func.value.id == w.args.args[0].arg):
+        return None
+    impl = methods.get(c.func.attr)
+    if impl is None or impl is w or impl.decorator_list or w.decorator_list or _sig(impl) != _sig(w):
+        return None
+    if w.args.posonlyargs or w.args.kwonlyargs:
+        return None
+    want = [a.arg for a in w.args.args[1:]] + (["*" + w.args.vararg.arg] if w.args.vararg else [])
+    got = []
+    for x in c.args:
+        if isinstance(x, ast.Name):
+            got.append(x.id)
+        elif isinstance(x, ast.Starred) and isinstance(x.value, ast.Name):
+            got.append("*" + x.value.id)
+        else:
+            return None
+    if got != want:
+        return None
+    if w.args.kwarg:
+        if not (len(c.keywords) == 1 and c.keywords[0].arg is None and isinstance(c.keywords[0].value, ast.Name) and c.keywords[0].value.id == w.args.kwarg.arg):
+            return None
+    elif c.keywords:
+        return None
+    return impl
+
+
+def undo_delegations(trees):
+    """N10 over the whole package: ``trees`` is {module name: ast.Module}."""
+    tab = table()
+    if not tab:
+        return []
+    uses = {}
+    defs = {}
+    for mod, tree in trees.items():
+        for n in ast.walk(tree):
+            if isinstance(n, ast.Attribute):
+                uses[n.attr] = uses.get(n.attr, 0) + 1
+            elif isinstance(n, ast.Constant) and isinstance(n.value, str) and n.value.isidentifier():
+                uses[n.value] = uses.get(n.value, 0) + 1
+            elif isinstance(n, (ast.FunctionDef, ast.AsyncFunctionDef)):
+                defs[n.name] = defs.get(n.name, 0) + 1
+            elif isinstance(n, ast.Name):
+                uses[n.id] = uses.get(n.id, 0) + 1
+    cands = []
+    per_name = {}
+    for mod, tree in trees.items():
+        for cls in [c for c in tree.body if isinstance(c, ast.ClassDef)]:
+            methods = dict((m.name, m) for m in cls.body if isinstance(m, ast.FunctionDef))
+            for w in list(methods.values()):
+                impl = _delegation(w, methods)
+                if impl is None:
+                    continue
+                if "%s.%s.%s" % (mod, cls.name, impl.name) in tab or "%s.%s.%s" % (mod, cls.name, w.name) not in tab:
+                    continue        # the catalogued tree has that method itself / does not have the wrapper's name
+                cands.append((mod, cls, w, impl))
+                per_name[impl.name] = per_name.get(impl.name, 0) + 1
+    done = []
+    for mod, cls, w, impl in cands:
+        # the implementation's name is used by its wrappers only and defined next to each of them only: nothing else
+        # (a subclass overriding it, another caller) can tell the two methods from one
+        if uses.get(impl.name, 0) != per_name[impl.name] or defs.get(impl.name, 0) != per_name[impl.name]:
+            continue
+        doc = [st for st in w.body if _is_docstring(st)][:1]
+        ib = list(impl.body)
+        if doc and ib and _is_docstring(ib[0]):
+            ib = ib[1:]
+        w.body = (doc + ib) or [ast.copy_location(ast.Pass(), w)]
+        cls.body.remove(impl)
+        done.append(("%s.%s.%s" % (mod, cls.name, w.name), impl.name))
+    return done
 
 
 def drop_dead_bookkeeping(trees):
@@ -538,7 +692,7 @@ def canonicalise(tree, modname, stage="post"):
             aent = atab.get(q) or {}
             ks = {"N2": n2_strip_logging(fn, ent), "N3": n3_inline_return_temps(fn, ent, list(aent.get("names", ())), aent.get("hash"))}
         else:
-            ks = {"N5": n5_align_augassign(fn, ent), "N1": n1_orient_compares(fn, ent)}
+            ks = {"N9": n9_align_lock_forms(fn, ent), "N5": n5_align_augassign(fn, ent), "N1": n1_orient_compares(fn, ent)}
             ks["N6"] = n6_align_nested(fn, ent)
             ks["N7"] = n7_align_continue(fn, ent)
             ks["N4"] = n4_align_else(fn, ent)
